@@ -63,3 +63,34 @@ def _canon_item(i, d) -> str:
         canon(i.result, d),
         "N" if err is None else canon(err, d),
     )
+
+
+def key_order(v, _depth=0) -> str:
+    """Iteration order of every dict inside v (what a workflow that loops over a delivered mapping observes), as a short digest;
+    '' when v contains no dict with more than one key."""
+    import hashlib
+
+    acc = []
+
+    def walk(x, d):
+        if d > 200:
+            return
+        if type(x) is dict:
+            if len(x) > 1:
+                acc.append("|".join(canon(k) for k in x))
+            for y in x.values():
+                walk(y, d + 1)
+        elif type(x) in (list, tuple):
+            for y in x:
+                walk(y, d + 1)
+        elif type(x).__name__ == "BatchResult":
+            for it in x.all:
+                walk(it.result, d + 1)
+
+    try:
+        walk(v, 0)
+    except Exception:  # noqa: BLE001
+        return "?"
+    if not acc:
+        return ""
+    return hashlib.sha1("\n".join(acc).encode("utf-8", "surrogatepass")).hexdigest()[:10]
